@@ -121,7 +121,7 @@ Definition advance (st : lp) (n : Z) : lp := set_clk st (sat64 (clk st + Z.max 0
 Definition read_clock (st : lp) : Z * lp := (clk st, advance st (cstep st)).
 
 Definition nth_slot (st : lp) (i : Z) : option slot :=
-  if i <? 0 then None else nth_error (slots st) (Z.to_nat i).
+  if (i <? 0) || (i >=? Z.of_nat (length (slots st))) then None else nth_error (slots st) (Z.to_nat i).
 Definition put_slot (st : lp) (i : Z) (s : slot) : lp := set_slots st (upd (slots st) (Z.to_nat i) s).
 
 (* ---------------------------------------------------------------- loop.c: level queues *)
@@ -187,7 +187,7 @@ Definition timer_from_handle (st : lp) (h : Z) : lookup_res :=
   let check := to_i32 (h / two32) in
   let idx := to_i32 (h mod two32) in
   if idx <? 0 then LErr LT_ERANGE else
-  match nth_error (slots st) (Z.to_nat idx) with
+  match nth_slot st idx with
   | Some s => if s_check s =? check then LOk idx s else LErr LT_EINVAL
   | None => if idx + 1 >? LT_ARRAY_MAX_ELEMENTS then LErr LT_EINVAL
             else if 0 =? check then LOk idx zero_slot else LErr LT_EINVAL
@@ -324,7 +324,7 @@ Inductive cbop :=
 Definition resolve (st : lp) (r : href) : Z :=
   match r with
   | RLit h => h
-  | RIssued k => if k <? 0 then 0 else nth (Z.to_nat k) (issued st) 0
+  | RIssued k => if (k <? 0) || (k >=? Z.of_nat (length (issued st))) then 0 else nth (Z.to_nat k) (issued st) 0
   end.
 
 Definition exec_cbop (fx : fixes) (st : lp) (c : cbop) : lp :=
